@@ -29,6 +29,8 @@ AE == /\ Is("ae")
       /\ G("an append returns only after its batch is durable (C12)", Key(Ev.id) \in DOMAIN ends /\ ends[Key(Ev.id)] <= synced)
       /\ returned' = returned \cup {Ev.id}
       /\ UNCHANGED <<written, synced, begun, entries, ends, before>>
+\* a bare fsync() returned: everything written before it was called is durable - at the least nothing goes backwards
+FS == /\ Is("fs") /\ G("fsync() succeeds", Ev.ok) /\ UNCHANGED <<written, synced, begun, returned, entries, ends, before>>
 Ids(runs) == {runs[i][1] : i \in 1..Len(runs)}
 Pos(runs, id) == CHOOSE i \in 1..Len(runs) : runs[i][1] = id
 Final == /\ Is("final")
@@ -39,7 +41,7 @@ Final == /\ Is("final")
          /\ G("appends ordered in real time are ordered in the file", \A p \in before : Pos(Ev.runs, p[1]) < Pos(Ev.runs, p[2]))
          /\ G("everything written was accounted for", written = Ev.size)
          /\ UNCHANGED <<written, synced, begun, returned, entries, ends, before>>
-TraceNext == Layout \/ Write \/ Sync \/ AB \/ AE \/ Final
+TraceNext == Layout \/ Write \/ Sync \/ AB \/ AE \/ FS \/ Final
 TraceSpec == Init /\ [][TraceNext]_vars
 TraceAccepted ==
   LET d == TLCGet("stats").diameter IN
